@@ -107,6 +107,21 @@ def run(ck):
         traces.append(dbgen.gen_launch_trace(ck.rng))
     for _ in range(250 if ck.tier == "quick" else 5000):
         traces.append(dbgen.gen_flag_trace(ck.rng))
+    # the regions key: first-writer-wins whatever the first writer wrote - values that do not decode as a regions specification
+    # (plain strings, literals), valid specifications, finalized or not, competing instance ids; no context lookups here (an
+    # undecodable regions value makes that lookup fail-stop: C17's subject)
+    for vid, (rg, cn) in {101: ([1, 2], [2, 1]), 102: ([1, 2], [1, 2]), 103: ([3], [3])}.items():
+        eng.define_regions(vid, rg, cn)
+    for _ in range(120 if ck.tier == "quick" else 3000):
+        rng = ck.rng
+        t = []
+        for i in range(rng.randint(2, 6)):
+            val = rng.choice([1, 2, 3, 9001, 9005, 101, 102, 103, 101, 102])
+            t.append(("K", 5, val, rng.choice([0, 1, 2]), rng.randint(0, 3), rng.choice([0, 1, 2]), rng.random() < 0.5))
+            t.append(("LK", 5))
+            if rng.random() < 0.3:
+                t.append(("FORK",))
+        traces.append(t)
     ck.cov["exhaustive_part"] = "all %d command sequences of length <= %d over the 8-command alphabet" % (nexh, L)
     ck.cov["exhaustive"] = False
     if not ok:
